@@ -185,43 +185,43 @@ theorem C14_winner_spec (e : Env) (base : Name) (files : List Name) (f : Name) :
 
 /-! ### the import gate -/
 
-/-- **C14_import_gate** — a module is imported only if it is the module of a yielded file and passes
-`--module`; a module excluded by the filter is never imported. -/
+/-- **C14_import_gate** — a module is imported only under a dotted name that (i) is one of the names
+of a yielded file (a search path stripped, the package in front) and (ii) passes `--module`; a name
+excluded by the filter is never imported. -/
 theorem C14_import_gate (e : Env) (accept : List Name → Bool) (roots : List (List Name × Tree))
     (pkgs : List (List Name)) (m : List Name) (h : m ∈ importedModules e accept roots pkgs) :
-    accept m = true ∧ ∃ p ∈ findTestFiles e roots, moduleName e roots pkgs p = some m := by
+    accept m = true ∧ ∃ p ∈ findTestFiles e roots, m ∈ moduleNames e roots pkgs p := by
   unfold importedModules at h
   obtain ⟨p, hp, hm⟩ := List.mem_filterMap.1 h
-  cases hmod : moduleName e roots pkgs p with
-  | none => simp [hmod] at hm
-  | some m' =>
-    simp only [hmod] at hm
-    by_cases ha : accept m' = true
-    · simp only [ha, if_true, Option.some.injEq] at hm
-      subst hm
-      exact ⟨ha, p, hp, hmod⟩
-    · simp [ha] at hm
+  exact ⟨List.find?_some hm, p, hp, List.mem_of_find?_eq_some hm⟩
 
-/-- **C14_module_name_has_package** — the name the `--module` patterns see is the imported dotted
+/-- each yielded file is imported at most once (the loop over the search paths ends with the first
+accepted name) -/
+theorem C14_import_once (e : Env) (accept : List Name → Bool) (roots : List (List Name × Tree))
+    (pkgs : List (List Name)) :
+    (importedModules e accept roots pkgs).length ≤ (findTestFiles e roots).length := by
+  unfold importedModules
+  exact List.length_filterMap_le _ _
+
+/-- **C14_module_name_has_package** — every name the `--module` patterns see is an imported dotted
 name: it starts with the package of the search path the file was found under (C08 applies the
 patterns to this name). -/
 theorem C14_module_name_has_package (e : Env) (roots : List (List Name × Tree)) (pkgs : List (List Name))
-    (p m : List Name) (h : moduleName e roots pkgs p = some m) :
+    (p m : List Name) (h : m ∈ moduleNames e roots pkgs p) :
     (yieldPkg e roots pkgs p).isPrefixOf m = true := by
-  unfold moduleName at h
+  unfold moduleNames at h
   simp only at h
-  split at h
-  · cases h
-  · split at h
-    · cases h
-    · rename_i f _
-      cases hs : stripPyExt e f with
-      | none => rw [hs] at h; cases h
-      | some noext =>
-        rw [hs] at h
-        simp only [Option.map_some, Option.some.injEq] at h
-        subst h
-        simp [List.append_assoc]
+  obtain ⟨r, _, hr⟩ := List.mem_filterMap.1 h
+  split at hr
+  · cases hr
+  · rename_i f _
+    cases hs : stripPyExt e f with
+    | none => rw [hs] at hr; cases hr
+    | some noext =>
+      rw [hs] at hr
+      simp only [Option.map_some, Option.some.injEq] at hr
+      subst hr
+      simp [List.append_assoc]
 
 /-- the facts the walk relies on, from the source -/
 theorem C14_ignore_folders : Facts.ignoreFolders = [".git", "__pycache__", "node_modules"] ∧
